@@ -392,6 +392,9 @@ pub fn run(trace: &Trace, obs: &mut dyn Observer) -> Result<RunStats, Violation>
 /// Observer that checks nothing (used for twin runs that only need the final state).
 pub struct NoObs;
 impl Observer for NoObs {
+    fn needs_snap(&self, _actor: Actor, _op: &Op, _screen: &Screen) -> bool {
+        false
+    }
     fn step(&mut self, _ctx: &StepCtx) -> Result<(), Violation> {
         Ok(())
     }
